@@ -31,7 +31,7 @@ RULE = ('scenarios = 2 or 3 calls (equal and different arguments) on shared modu
 ASSUMPTIONS = ['interleavings are explored at athlib source-line granularity with at most two forced pre-emptions (three threads: '
                'drawn); switches inside a single line or inside json / jsonschema internals are out of reach',
                'a 50 ms watchdog releases all threads when the token holder blocks on a lock; it can only change the schedule']
-RULE = RULE + '; scenarios cover every scoring system and helper, calls that raise, every pair of different functions per shared grader and a cache hit on the newest entry; all body x body double pre-emptions of the two entered public functions'
+RULE = RULE + '; GENERATED scenarios besides the listed ones: any two or three calls of the catalogue (also from different modules) after a generated single-threaded prefix of 0-3 other calls (partially warm process), caches optionally at their limit; scenarios cover every scoring system and helper, calls that raise, every pair of different functions per shared grader and a cache hit on the newest entry; all body x body double pre-emptions of the two entered public functions'
 
 GENDERS = 'mf'
 
@@ -58,7 +58,7 @@ def _module_snaps():
         import athlib.uka.agegroups as _ag
         import athlib.wma.agegrader as _wg
         _SNAPS = [Snap(mod(n)) for n in ('athlon_score', 'hungarian_score', 'sportshall_score', 'tyrving_score', 'qkids_score',
-                                         'bulgarian_score', 'implements')] + [Snap(_ag), Snap(_wg)]
+                                         'bulgarian_score', 'implements', 'utils')] + [Snap(_ag), Snap(_wg)]
     return _SNAPS
 
 
@@ -74,16 +74,26 @@ def reset_cold():
     # data, scratch, locks - are dropped), so "very first call" really is one
     from checks.c14 import reset_graders
     reset_graders()
+    _clear_caches()
+
+
+def _clear_caches():
+    # by name where the names exist (the utils snapshot above empties module-level containers under any name)
     u = mod('utils')
-    u._schema_valid_cache.clear()
-    u._valid_against_schema_cache.clear()
+    for nm in ('_schema_valid_cache', '_valid_against_schema_cache'):
+        c = getattr(u, nm, None)
+        if hasattr(c, 'clear'):
+            c.clear()
 
 
 def fill_caches(n=20):
     u = mod('utils')
+    a, b = getattr(u, '_schema_valid_cache', None), getattr(u, '_valid_against_schema_cache', None)
     for i in range(n):
-        u._schema_valid_cache[('filler-%d' % i, None)] = True
-        u._valid_against_schema_cache[('filler-%d' % i, 'x')] = True
+        if isinstance(a, dict):
+            a[('filler-%d' % i, None)] = True
+        if isinstance(b, dict):
+            b[('filler-%d' % i, 'x')] = True
 
 
 U = None
@@ -245,10 +255,11 @@ SCENARIOS = [
 
 
 class Scenario(object):
-    def __init__(self, name, names, fill, warm):
+    def __init__(self, name, names, fill, warm, prefix=()):
         self.name, self.names, self.fill, self.warm = name, names, fill, warm
         T = thunks_table()
         self.thunks = [T[n] for n in names]
+        self.prefix = [T[n] for n in prefix]      # generated scenarios: calls made single-threaded beforehand
 
     def setup(self):
         dsched.reset_locks()
@@ -261,20 +272,23 @@ class Scenario(object):
                     pass
             u = mod('utils')
             if self.fill:       # warm tables, but the caches at their limit without the scenario's own keys
-                u._schema_valid_cache.clear()
-                u._valid_against_schema_cache.clear()
+                _clear_caches()
         if self.fill and self.fill > 0:
             fill_caches(self.fill)
         elif self.fill and self.fill < 0:
             # the FIRST caller's own answer is cached as the newest entry of a cache at its limit (a hit), the other
             # caller's is not (a miss whose insertion evicts the newest entries)
             u = mod('utils')
-            u._schema_valid_cache.clear()
-            u._valid_against_schema_cache.clear()
+            _clear_caches()
             fill_caches(-self.fill)
             try:
                 with _stdout_guard():
                     self.thunks[0]()
+            except Exception:
+                pass
+        for t in self.prefix:       # a partially warm process: some tables built, some caches holding entries, some not
+            try:
+                t()
             except Exception:
                 pass
 
@@ -310,7 +324,7 @@ class Poisoned(Exception):
 
 
 def examine(case):
-    sc = Scenario(case['scenario'], case['thunks'], case.get('fill', 0), case.get('warm', False))
+    sc = Scenario(case['scenario'], case['thunks'], case.get('fill', 0), case.get('warm', False), case.get('prefix', ()))
     with _stdout_guard():
         want = [norm(r) for r, n in sc.solo()]
         res, run = sc.run([tuple(s) for s in case['schedule']], case.get('first', 0))
@@ -333,7 +347,10 @@ def judge(case, got, want, run):
             kind = 'never-returns' if g == ('did-not-finish',) or g == ('exc', 'Deadlock') else 'missing-answer' if g == ('ret', 'None') and w[0] == 'ret' else \
                 'error' if g[0] == 'exc' else 'different-value' if w[0] == 'ret' else 'other'
             where = run.switches[0][3] if run.switches else 'no-switch'
-            out.append(V('same-as-single-threaded', ['diverges', case['scenario'].split('-')[0], kind,
+            tok = case['scenario'].split('-')[0]
+            if tok == 'gen':
+                tok = 'gen:' + case['thunks'][i].split('-')[0]
+            out.append(V('same-as-single-threaded', ['diverges', tok, kind,
                                                     g[1] if g[0] == 'exc' else 'value', 'warm' if case.get('warm') else 'cold'],
                          dict(case, switches=[list(s) for s in run.switches]), {'thread': i, 'got': g}, w))
             break
@@ -463,8 +480,75 @@ def _shard(ctx, payload):
     ctx.label('scenario-' + ('warm' if warm else 'cold'))
 
 
+def gen_shard(ctx, payload):
+    """GENERATED scenarios: any two (sometimes three) calls of the catalogue - also pairs from different modules - after a
+    generated single-threaded prefix of 0-3 other calls (a partially warm process: some lazy tables built, some not, caches
+    holding some entries), caches optionally filled to / just below their limit; per scenario every early single
+    pre-emption, sampled later ones, early-window and sampled double pre-emptions."""
+    idx, count, thorough = payload
+    rng = random.Random(derive_seed(ctx.seed, 'C16-gen', idx))
+    names_all = sorted(thunks_table())
+    light = [x for x in names_all if not x.endswith('-all')]
+    for j in range(count):
+        if HUNG:
+            ctx.label('shard-abandoned-after-a-thread-never-returned')
+            return
+        n = 3 if rng.random() < 0.15 else 2
+        names = [rng.choice(names_all if rng.random() < 0.1 else light) for _ in range(n)]
+        prefix = [rng.choice(light) for _ in range(rng.choice([0, 0, 1, 1, 2, 3]))]
+        fill = rng.choice([0, 19, 20]) if any(x.startswith(('sv', 'va')) for x in names) else 0
+        sc = Scenario('gen', names, fill, False, prefix)
+        with _stdout_guard():
+            solo = sc.solo()
+        want = [norm(r) for r, _n in solo]
+        counts = [_n for r, _n in solo]
+        base = {'scenario': 'gen', 'thunks': names, 'fill': fill, 'warm': False, 'prefix': prefix}
+        ctx.label('generated-scenarios')
+        ctx.label('generated-prefix-%d' % len(prefix))
+        if len({x.split('-')[0] for x in names}) > 1:
+            ctx.label('generated-cross-function')
+
+        def do(schedule, first):
+            case = dict(base, schedule=[list(s) for s in schedule], first=first)
+            with _stdout_guard():
+                sc.setup()
+                r = dsched.Run(sc.thunks, schedule, first=first)
+                res = r.run()
+            got = [norm(x) for x in res]
+            ctx.count()
+            if got != want:
+                ctx.violations(judge(case, got, want, r))
+                ctx.label('diverging-schedules')
+            if r.hung or HUNG:
+                raise Poisoned()
+            if any(0 < s[1] < counts[s[0]] for s in schedule):
+                ctx.nontrivial(('gen', tuple(names), tuple(prefix), fill, first, tuple(schedule)),
+                               dict(case, switched_in=[list(s[3:]) for s in r.switches]) if len(ctx.nt_keys) % 700 == 3 else None)
+        per = 40 if thorough else 10
+        try:
+            for a in range(n):
+                pts = set(range(min(6, counts[a] + 1)))
+                pts.update(rng.randrange(counts[a] + 1) for _ in range(per))
+                for k in sorted(pts):
+                    b = rng.choice([x for x in range(n) if x != a])
+                    do([(a, k, b)], a)
+                for b in range(n):
+                    if b == a:
+                        continue
+                    for k1 in range(min(5, counts[a] + 1)):
+                        for k2 in sorted({rng.randrange(counts[b] + 1) for _ in range(per // 2)} | set(range(min(3, counts[b] + 1)))):
+                            do([(a, k1, b), (b, k2, a)], a)
+                    for _ in range(per):
+                        do([(a, rng.randrange(counts[a] + 1), b), (b, rng.randrange(counts[b] + 1), a)], a)
+        except Poisoned:
+            ctx.label('shard-abandoned-after-a-thread-never-returned')
+            return
+
+
 def run(ctx):
     thorough = ctx.tier == 'thorough'
+    run_shards(ctx, 'checks.c16', 'gen_shard', [(i, 60 if thorough else 12, thorough) for i in range(32 if thorough else 16)],
+               disjoint=True)
     payloads = []
     for name, names, fill in SCENARIOS:
         for warm in (False, True):
